@@ -225,9 +225,35 @@ class Interp:
             raise PyRaise("TypeError", f"{fv.qualname} got an unexpected keyword argument {sorted(kwargs)[0]}")
         return env
 
+    @staticmethod
+    def _memoising_decorator(node):
+        """functools.lru_cache / functools.cache on a function: later calls with the same arguments return the SAME object"""
+        for d in getattr(node, "decorator_list", []):
+            t = d.func if isinstance(d, ast.Call) else d
+            name = t.attr if isinstance(t, ast.Attribute) else (t.id if isinstance(t, ast.Name) else None)
+            if name in ("lru_cache", "cache", "cached"):
+                return True
+        return False
+
     def call_function(self, fv, args, kwargs, use_summary=True):
         if use_summary and fv.qualname in self.summaries:
             return self.summaries[fv.qualname](self, args, kwargs)
+        if self._memoising_decorator(fv.node):
+            try:
+                key = (fv.qualname, tuple(a if isinstance(a, (int, str, bool, type(None), Fraction)) else id(a) for a in args),
+                       tuple(sorted((k, v if isinstance(v, (int, str, bool, type(None), Fraction)) else id(v)) for k, v in kwargs.items())))
+            except TypeError:
+                key = None
+            memo = self.scratch.setdefault("memoised_calls", {})
+            if key is not None and key in memo:
+                return memo[key]
+            r = self._call_function_body(fv, args, kwargs)
+            if key is not None:
+                memo[key] = r
+            return r
+        return self._call_function_body(fv, args, kwargs)
+
+    def _call_function_body(self, fv, args, kwargs):
         if self.call_depth > 40:
             raise Unsupported("call depth")
         env = self.bind_args(fv, args, kwargs)
